@@ -6,7 +6,9 @@
      bfe_http/header.go          Header.WriteSubset (sorted keys, value sanitising), HasToken
      bfe_http/transfer.go        response side of readTransfer (what the proxy sees of a backend reply)
    (the request-body related steps of writeHeader are parameters here; they are exercised by C28, KeepAlive.v)
-   after the /repo fix "response.bodyAllowed is status based (1xx, 204, 304), writeHeader never chunks such a response".
+   after the /repo fixes "response.bodyAllowed is status based (1xx, 204, 304), writeHeader never chunks such a response"
+   and "a handler-set Transfer-Encoding is replaced, not duplicated, when writeHeader switches to chunking, and no
+   Content-Length is computed next to it".
    and a strict reference response parser.  Bytes are Z in [0,256).  Definitions only. *)
 From Coq Require Import String Ascii.
 From Coq Require Import List ZArith Bool.
@@ -157,7 +159,7 @@ Definition wh_frame (is_head : bool) (status : Z) (no_body_status has_cl at11 : 
   if is_head || (status =? 304) then (h2, false, close3, [])
   else if no_body_status then (del_key s_te h2, false, close3, [])
   else if has_cl then (del_key s_te h2, false, close3, [])
-  else if at11 then (h2, true, close3, s_chunked)
+  else if at11 then (del_key s_te h2, true, close3, s_chunked)
   else (del_key s_te h2, false, true, []).
 
 Section Writer.
@@ -175,7 +177,8 @@ Variable fix_expect : bool.
 Definition write_header (allowed : Z -> bool) (q : rq) (req_body : bool * bool * bool * bool) (status : Z) (h : fields) (clen : Z)
            (close0 hdone : bool) (p : bytes) : hdec :=
   let is_head := q_head q in
-  let set_cl := hdone && negb (status =? 304) && is_empty (get_first s_cl h) && (negb is_head || negb (is_empty p)) in
+  let set_cl := hdone && negb (status =? 304) && is_empty (get_first s_cl h) && is_empty (get_first s_te h) &&
+                (negb is_head || negb (is_empty p)) in
   let clen1 := if set_cl then blen p else clen in
   let has_cl0 := negb (clen1 =? -1) in
   let conn1 := fst (wh_conn q h has_cl0 close0) in
